@@ -1,7 +1,8 @@
-(* Properties_C17.v -- the C17 theorems and nothing else (model-level purity;
-   thread interleavings are a runtime matter, see DESIGN.md C17). *)
+(* Properties_C17.v -- the C17 theorems and nothing else (model-level purity; interleavings of N threads at the
+   granularity of one top-level tag per step under an arbitrary schedule.  That the C++ performs no write to the
+   shared tag array / value / text, and its finer interleavings, are runtime matters: ThreadSanitizer run, DESIGN.md C17). *)
 From Coq Require Import NArith ZArith List.
-From Qv Require Import gen.Tables EscapeModel TmplModel TmplRender TmplProofs TmplPurity.
+From Qv Require Import gen.Tables EscapeModel TmplModel TmplRender TmplProofs TmplPurity TmplThreads.
 Import ListNotations.
 
 (* a render only appends, and what it appends does not depend on what the stream held *)
@@ -26,3 +27,38 @@ Theorem c17_cached_is_expansion : forall auto w ast, wf_ast ast = true ->
   pre ++ concat (map (fun r => expand auto w r ast) roots).
 Proof. exact cached_render_is_expansion. Qed.
 Print Assumptions c17_cached_is_expansion.
+
+(* ---- N threads share the text and the parsed tag list; each has its own value and its own (pre-filled) stream; a
+        schedule is ANY list of thread numbers (any order, any repetitions, unfair, numbers out of range idle); one step
+        renders the next top-level tag of that thread.  Whatever the schedule: a thread only ever extends its own
+        stream by a prefix of its fresh render, and once finished holds exactly pre ++ fresh render ---- *)
+Theorem c17_any_interleaving : forall auto w content tags (jobs : list (jv * list N)) (sched : list nat) k root pre t,
+  nth_error jobs k = Some (root, pre) ->
+  nth_error (run_sched auto w content sched (pool0 tags jobs)) k = Some t ->
+  exists o rest, t_out t = pre ++ o /\ o ++ rest = render auto w root content tags /\ (t_done t = true -> rest = []).
+Proof. exact any_interleaving. Qed.
+Print Assumptions c17_any_interleaving.
+
+(* ---- two schedules that let every thread finish end with the same streams: the fresh renders ---- *)
+Theorem c17_schedules_agree : forall auto w content tags jobs s1 s2,
+  Forall (fun t => t_done t = true) (run_sched auto w content s1 (pool0 tags jobs)) ->
+  Forall (fun t => t_done t = true) (run_sched auto w content s2 (pool0 tags jobs)) ->
+  map t_out (run_sched auto w content s1 (pool0 tags jobs)) = map t_out (run_sched auto w content s2 (pool0 tags jobs)) /\
+  map t_out (run_sched auto w content s1 (pool0 tags jobs)) = map (fun j => snd j ++ render auto w (fst j) content tags) jobs.
+Proof. exact schedules_agree. Qed.
+Print Assumptions c17_schedules_agree.
+
+(* ---- such schedules exist (the hypothesis above is satisfiable for every pool): round robin ---- *)
+Theorem c17_round_robin_finishes : forall auto w content tags jobs,
+  Forall (fun t => t_done t = true) (run_sched auto w content (round_robin (length jobs) (S (length tags))) (pool0 tags jobs)).
+Proof. exact round_robin_finishes. Qed.
+Print Assumptions c17_round_robin_finishes.
+
+(* ---- with the tag tree of a printed well-formed template a finished thread holds the documented expansion ---- *)
+Theorem c17_concurrent_is_expansion : forall auto w ast, wf_ast ast = true ->
+  forall jobs sched k root pre t,
+  nth_error jobs k = Some (root, pre) ->
+  nth_error (run_sched auto w (print_nodes ast) sched (pool0 (lay_nodes 0 ast) jobs)) k = Some t -> t_done t = true ->
+  t_out t = pre ++ expand auto w root ast.
+Proof. exact finished_thread_has_expansion. Qed.
+Print Assumptions c17_concurrent_is_expansion.
